@@ -416,3 +416,66 @@ func VerifC04_RPCRule() {
 const zzRegexPSrc = "^/p.*$"
 
 func zzRegexP(path string) bool { return strings.HasPrefix(path, "/p") }
+
+// VerifC04_VariableRule: a variable route (conditions on request variables
+// joined by "and" / "or", evaluated left to right: an "or" item closes a group
+// of and-ed items) followed by a catch-all route. The variable route is
+// chosen exactly when one of its groups holds entirely - in particular not
+// when every group fails and the last item happens to be marked "or".
+func VerifC04_VariableRule() {
+	n := 1 + verif.Choose("items", verif.Param("varitems", 2, 3))
+	type item struct {
+		name, value string
+		or          bool
+	}
+	var items []item
+	r := v2.Router{}
+	for i := 0; i < n; i++ {
+		it := item{name: []string{types.VarMethod, types.VarHost}[verif.Choose("var", 2)], value: zzLetters("want", 1, "AB"), or: verif.Choose("or", 2) == 1}
+		items = append(items, it)
+		m := v2.VariableMatcher{Name: it.name, Value: it.value}
+		switch {
+		case it.or:
+			m.Model = "or"
+		case verif.Tier() == 1 && verif.Choose("explicit_and", 2) == 1:
+			m.Model = "and"
+		}
+		r.Match.Variables = append(r.Match.Variables, m)
+	}
+	r.Route.ClusterName = "variable"
+	all := v2.Router{}
+	all.Match.Prefix = "/"
+	all.Route.ClusterName = "catchall"
+	rs, err := NewRouters(&v2.RouterConfiguration{VirtualHosts: []v2.VirtualHost{{Name: "vh", Domains: []string{"*"}, Routers: []v2.Router{r, all}}}})
+	verif.Assume(err == nil)
+	method, host := zzLetters("method", 1, "AB"), zzLetters("host", 1, "AB")
+	ctx := variable.NewVariableContext(context.Background())
+	variable.SetString(ctx, types.VarMethod, method)
+	variable.SetString(ctx, types.VarHost, host)
+	variable.SetString(ctx, types.VarPath, "/p")
+	// reference: a disjunction of and-groups, a group ends at an "or" item or at the end of the list
+	holds := func(it item) bool {
+		if it.name == types.VarMethod {
+			return it.value == method
+		}
+		return it.value == host
+	}
+	want := "catchall"
+	group := true
+	for i, it := range items {
+		group = group && holds(it)
+		if it.or || i == len(items)-1 {
+			if group {
+				want = "variable"
+				break
+			}
+			group = true
+		}
+	}
+	got := ""
+	if rt := rs.MatchRoute(ctx, protocol.CommonHeader{}); rt != nil {
+		got = rt.RouteRule().ClusterName(ctx)
+	}
+	verif.Assert(got == want, "a variable route was chosen although none of its condition groups holds (or skipped although one holds)")
+	verif.Cover("end")
+}
